@@ -30,7 +30,7 @@ ASSUMPTIONS = [
     "the cython/gcc scratch build of the working tree's .pyx is the compiled implementation under test",
 ]
 
-FULL = A.ASCII + A.UNI + A.SURR + A.ESC
+FULL = A.ASCII + A.LATIN1_HIGH + A.UNI + A.SURR + A.ESC
 CLSX = A.CLS + A.UNI + A.SURR + A.ESC
 ALPHAS = {"FULL": FULL, "CLSX": CLSX, "CORE": A.CORE + ["\ud800"], "UNQ": A.UNQ + ["\ud800"],
           "UNQCORE": ["%41", "%2F", "%2b", "%25", "%26", "%20", "%C3", "%A9", "%c3", "%E2", "%82", "%AC", "%F0", "%9F",
